@@ -177,9 +177,9 @@ Proof.
   - destruct (nth_error st n) as [rv|] eqn:En; [|discriminate]. inv_ok.
     destruct (is_known rv && is_surface a) eqn:Ek.
     + inv_ok. destruct a0 as [t1 old]. apply andb_true_iff in Ek. destruct Ek as [Ek _].
-      eapply IH; [| |lia|exact H]; auto.
+      refine (IH t1 (S n) _ _ _ _ _ _ Hst _ H); [|lia].
       eapply good_exchange_const; eauto.
-    + inv_ok. destruct a0 as [t1 [o|]]; (eapply IH; [| |lia|exact H]; auto;
+    + inv_ok. destruct a0 as [t1 [o|]]; (refine (IH t1 (S n) _ _ _ _ _ _ Hst _ H); [|lia];
         eapply good_simplify_one; eauto).
 Qed.
 
@@ -204,11 +204,11 @@ Proof.
   - injection H as <- <-. auto.
   - destruct (nth_error st n) as [rs|] eqn:En; [|discriminate]. inv_ok.
     destruct (is_surface a).
-    + eapply IH; [exact Hg|exact Hst|lia|exact H].
+    + refine (IH t (S n) _ _ _ Hg Hst _ H). lia.
     + destruct (is_known rs) eqn:Ek.
-      * inv_ok. destruct a0 as [t1 old]. eapply IH; [| |lia|exact H]; auto.
+      * inv_ok. destruct a0 as [t1 old]. refine (IH t1 (S n) _ _ _ _ Hst _ H); [|lia].
         eapply good_exchange_const; eauto.
-      * inv_ok. destruct a0 as [t1 o]. eapply IH; [| |lia|exact H]; auto.
+      * inv_ok. destruct a0 as [t1 o]. refine (IH t1 (S n) _ _ _ _ Hst _ H); [|lia].
         eapply good_simplify_one; eauto.
 Qed.
 
@@ -250,7 +250,7 @@ Proof.
   assert (Hper : forall s, ids_sound t s -> eval t s key = value ->
             good s (eval t s) (size t) t' /\ True).
   { intros s Hs Hkey.
-    assert (G0 : good s (eval t s) (size t) t) by (repeat split; auto; apply Hinv).
+    assert (G0 : good s (eval t s) (size t) t) by (split; [exact Hinv|split; [exact Hs|split; [intros; reflexivity|reflexivity]]]).
     destruct (rs_loop_ok s (eval t s) (size t) fuel t st3 key t1 st G0 (Hst3 s Hkey) Hm0) as [G1 S1].
     split; auto.
     eapply rs_final_ok; [exact G1|exact S1| |exact H]. unfold false_id; lia. }
@@ -271,12 +271,13 @@ Proof.
           + inv_ok. destruct a0 as [t1 old].
             assert (Hc : forall c, In c (children (const_node rv)) -> c < n).
             { unfold const_node. destruct (repl_eqb rv KnownTrue); simpl; tauto. }
-            destruct (exchange_sound t n _ t1 old Hinv Hm0 Hc) as [I [S _]].
+            destruct (exchange_sound t n _ t1 old Hinv Hm0 Hc) as [I [Sz _]].
             destruct (IH t1 (S n) _ _ _ _ _ I ltac:(lia) H). split; auto. lia.
           + inv_ok. destruct a0 as [t1 o].
-            destruct (simplify_one_sound t n t1 o Hinv Hm0) as [I [S _]].
+            destruct (simplify_one_sound t n t1 o Hinv Hm0) as [I [Sz _]].
             destruct o; destruct (IH t1 (S n) _ _ _ _ _ I ltac:(lia) H); split; auto; lia. }
-      destruct (Hf _ _ _ _ _ _ _ _ Hinv ltac:(unfold false_id; lia) Hm0) as [I1 S1].
+      assert (H2 : 1 < S false_id) by (unfold false_id; lia).
+      destruct (Hf _ _ _ _ _ _ _ _ Hinv H2 Hm0) as [I1 S1].
       destruct sp.
       - destruct (IH _ _ _ _ _ I1 H). split; auto. lia.
       - injection H as <- <-. auto. }
@@ -286,19 +287,72 @@ Proof.
       - injection H as <- <-. auto.
       - destruct (nth_error st n) as [rs|]; [|discriminate]. inv_ok.
         destruct (is_surface a).
-        + eapply IH; [exact Hinv| |exact H]. lia.
+        + refine (IH t (S n) _ _ _ Hinv _ H). lia.
         + destruct (is_known rs).
           * inv_ok. destruct a0 as [t1 old].
             assert (Hc : forall c, In c (children (const_node rs)) -> c < n).
             { unfold const_node. destruct (repl_eqb rs KnownTrue); simpl; tauto. }
-            destruct (exchange_sound t n _ t1 old Hinv Hm0 Hc) as [I [S _]].
+            destruct (exchange_sound t n _ t1 old Hinv Hm0 Hc) as [I [Sz _]].
             destruct (IH t1 (S n) _ _ _ I ltac:(lia) H). split; auto. lia.
           * inv_ok. destruct a0 as [t1 o].
-            destruct (simplify_one_sound t n t1 o Hinv Hm0) as [I [S _]].
+            destruct (simplify_one_sound t n t1 o Hinv Hm0) as [I [Sz _]].
             destruct (IH t1 (S n) _ _ _ I ltac:(lia) H). split; auto. lia. }
     destruct (Hloop _ _ _ _ _ _ Hinv Hm0) as [I1 S1].
-    destruct (Hfin _ _ _ _ _ _ _ I1 ltac:(unfold false_id; lia) H) as [I2 S2].
+    assert (H2 : 1 < S false_id) by (unfold false_id; lia).
+    destruct (Hfin _ _ _ _ _ _ _ I1 H2 H) as [I2 S2].
     split; auto. lia. }
-  destruct Hstruct as [I S]. split; auto. split; auto. split; auto.
+  destruct Hstruct as [I Sz]. split; auto. split; auto. split; auto.
   intros s Hs Hkey. destruct (Hper s Hs Hkey) as [[_ [A [B _]]] _]. auto.
+Qed.
+
+(** ** simplify_up / simplify *)
+Lemma simplify_up_loop_sound : forall k t n res t' res',
+  inv t -> simplify_up_loop true t n k res = Ok (t', res') ->
+  inv t' /\ size t' = size t /\ volumes t' = volumes t /\
+  simplify_up_loop false t n k res = Ok (t', res') /\
+  forall s, ids_sound t s -> ids_sound t' s /\ forall j, eval t' s j = eval t s j.
+Proof.
+  induction k as [|k IH]; intros t n res t' res' Hinv H; simpl in H.
+  - injection H as <- <-.
+    split; [auto|split; [auto|split; [auto|split; [auto|intros s Hs; split; auto]]]].
+  - inv_ok. destruct a as [t1 sp].
+    destruct (simplify_one_sound t n t1 sp Hinv Hm) as [I [Sz [V [F Hv]]]].
+    destruct (IH _ _ _ _ _ I H) as [I2 [Sz2 [V2 [F2 Hv2]]]].
+    split; auto. split; [lia|]. split; [congruence|]. split.
+    + simpl. rewrite F. cbn [bind]. exact F2.
+    + intros s Hs. destruct (Hv s Hs) as [A B]. destruct (Hv2 s A) as [A2 B2].
+      split; auto. intros j. rewrite B2. auto.
+Qed.
+
+Lemma simplify_loop_sound : forall fuel t start t',
+  inv t -> simplify_loop true fuel t start = Ok t' ->
+  inv t' /\ size t' = size t /\ volumes t' = volumes t /\
+  simplify_loop false fuel t start = Ok t' /\
+  forall s, ids_sound t s -> ids_sound t' s /\ forall j, eval t' s j = eval t s j.
+Proof.
+  induction fuel as [|fuel IH]; intros t start t' Hinv H; simpl in H; [discriminate|].
+  inv_ok. destruct a as [t1 next]. pose proof Hm as Hup. unfold simplify_up in Hm. inv_ok.
+  destruct (simplify_up_loop_sound _ _ _ _ _ _ Hinv Hm) as [I [Sz [V [F Hv]]]].
+  assert (Fup : simplify_up false t start = Ok (t1, next)).
+  { unfold simplify_up. rewrite Hm0. cbn [bind]. exact F. }
+  simpl. rewrite Fup. cbn [bind].
+  destruct next as [s'|].
+  - inv_ok. rewrite Hm1. cbn [bind].
+    destruct (IH _ _ _ I H) as [I2 [Sz2 [V2 [F2 Hv2]]]].
+    split; auto. split; [lia|]. split; [congruence|]. split; auto.
+    intros s Hs. destruct (Hv s Hs) as [A B]. destruct (Hv2 s A) as [A2 B2].
+    split; auto. intros j. rewrite B2. auto.
+  - injection H as <-. split; auto.
+Qed.
+
+(** [simplify(tree, start)] keeps every node's value (for every assignment
+    under which the hash-cons table is sound), the size and the order *)
+Theorem simplify_tree_sound : forall t start t',
+  inv t -> simplify_tree true t start = Ok t' ->
+  inv t' /\ size t' = size t /\ volumes t' = volumes t /\
+  simplify_tree false t start = Ok t' /\
+  forall s, ids_sound t s -> ids_sound t' s /\ forall j, eval t' s j = eval t s j.
+Proof.
+  intros t start t' Hinv H. unfold simplify_tree in *. inv_ok. rewrite Hm. cbn [bind].
+  apply simplify_loop_sound; auto.
 Qed.
